@@ -45,9 +45,16 @@ func state(c *core.Ctx, cp *crcPkg) {
 	if sum64 == nil || write == nil || sum == nil {
 		return
 	}
-	if r, bd := pat.Stmt("return _d._f").Find(info, sum64.Decl.Body, nil); r != nil && len(sum64.Decl.Body.List) == 1 {
-		cp.field = core.FieldOf(info, r.(*ast.ReturnStmt).Results[0])
-		_ = bd
+	// Sum64 returns the running field, possibly through a local
+	var rets []*ast.ReturnStmt
+	core.Inspect(sum64.Decl.Body, func(n ast.Node) bool {
+		if r, ok := n.(*ast.ReturnStmt); ok {
+			rets = append(rets, r)
+		}
+		return true
+	})
+	if len(rets) == 1 && len(rets[0].Results) == 1 {
+		cp.field = core.FieldOf(info, origin(info, sum64.Decl.Body, rets[0].Results[0]))
 	}
 	if cp.field == nil {
 		c.Undecidedf("R2.state", key("Sum64"), sum64.Decl.Pos(), "Sum64 does not simply return a field")
@@ -99,13 +106,23 @@ func state(c *core.Ctx, cp *crcPkg) {
 			c.Undecidedf("R2.state", wkey, write.Decl.Pos(), "step function is neither an in-place field update nor step(crc, p) returning crc")
 			break
 		}
-		as, bd := pat.Stmt("_d."+F+" = _f(_seed, _p)").Find(info, write.Decl.Body, nil)
-		if as == nil || ast.Unparen(as.(*ast.AssignStmt).Rhs[0]) != ast.Expr(calls[0]) || objOf(info, bd["_p"].(ast.Expr)) != wparam {
+		// d.F = step(seed, p), the new value possibly named first
+		var as *ast.AssignStmt
+		ast.Inspect(write.Decl.Body, func(n ast.Node) bool {
+			if a, ok := n.(*ast.AssignStmt); ok && len(a.Lhs) == 1 && len(a.Rhs) == 1 && a.Tok == token.ASSIGN && core.FieldOf(info, a.Lhs[0]) == cp.field {
+				if origin(info, write.Decl.Body, a.Rhs[0]) == ast.Expr(calls[0]) {
+					as = a
+				}
+			}
+			return true
+		})
+		if as == nil || len(calls[0].Args) != 2 || objOf(info, calls[0].Args[1]) != wparam {
 			c.Undecidedf("R2.state", wkey, write.Decl.Pos(), "Write does not store step(..., p) into the running field")
 			break
 		}
-		seed := bd["_seed"].(ast.Expr)
-		cont := pat.Expr("_d."+F).Match(info, seed, pat.Binds{"_d": bd["_d"]}) != nil
+		seed := calls[0].Args[0]
+		cont := core.FieldOf(info, origin(info, write.Decl.Body, seed)) == cp.field &&
+			pat.Same(info, ast.Unparen(origin(info, write.Decl.Body, seed)).(*ast.SelectorExpr).X, ast.Unparen(as.Lhs[0]).(*ast.SelectorExpr).X)
 		if _, isC := uint64Const(info, seed); !cont && !isC {
 			c.Undecidedf("R2.state", wkey, as.Pos(), "unrecognised start value %s of the step in Write", c.Src(seed))
 			break
@@ -141,6 +158,11 @@ func state(c *core.Ctx, cp *crcPkg) {
 					}
 				}
 			case *ast.CallExpr:
+				if b, isB := core.Callee(info, x).(*types.Builtin); isB && b.Name() == "new" && len(x.Args) == 1 {
+					if t := info.TypeOf(x.Args[0]); t != nil && types.Identical(t, cp.typ) {
+						cp.newFns[fn.Obj] = true // new(T): the zero digest
+					}
+				}
 				if core.CalleeFunc(info, x) == st.Obj && fn.Obj != write.Obj && len(x.Args) == 2 {
 					if k, isC := uint64Const(info, x.Args[0]); !isC {
 						und = true
@@ -202,6 +224,59 @@ func sumLE(c *core.Ctx, cp *crcPkg, sum *core.Fn, key string) {
 			return
 		}
 		c.Check("R2.state", key, call.Pos(), order == "LittleEndian", "Sum must encode the CRC little-endian as Redis does (found binary."+order+"): trailers written with it are refused by Redis and by the tool's own checkers")
+		return
+	}
+	// var buf [8]byte; for i := range buf { buf[i] = byte(s >> (8*i)) }; append(in, buf[:]...)
+	idxForm := false
+	core.Inspect(sum.Decl.Body, func(n ast.Node) bool {
+		var iv types.Object
+		var body *ast.BlockStmt
+		switch l := n.(type) {
+		case *ast.RangeStmt:
+			if at, ok := info.TypeOf(l.X).Underlying().(*types.Array); ok && at.Len() == 8 && l.Key != nil && l.Value == nil {
+				iv, body = objOf(info, l.Key), l.Body
+			}
+		case *ast.ForStmt:
+			if v, init, bound, op, step, ok := forHeader8(info, l); ok && step == 1 && init == 0 && (op == token.LSS && bound == 8 || op == token.LEQ && bound == 7) {
+				iv, body = v, l.Body
+			}
+		}
+		if iv == nil || len(body.List) != 1 {
+			return true
+		}
+		as, ok := body.List[0].(*ast.AssignStmt)
+		if !ok || len(as.Lhs) != 1 || len(as.Rhs) != 1 {
+			return true
+		}
+		ie, ok := ast.Unparen(as.Lhs[0]).(*ast.IndexExpr)
+		if !ok || objOf(info, strip(info, ie.Index)) != iv || width(info, ast.Unparen(as.Rhs[0])) != 8 {
+			return true
+		}
+		sh, ok := strip(info, as.Rhs[0]).(*ast.BinaryExpr)
+		if !ok || sh.Op != token.SHR || !isVal(sh.X) {
+			return true
+		}
+		// shift amount 8*i (or i*8, i<<3)
+		amt, ok := strip(info, sh.Y).(*ast.BinaryExpr)
+		if !ok {
+			return true
+		}
+		k, isC := core.IntConst(info, amt.Y)
+		other := amt.X
+		if !isC {
+			k, isC = core.IntConst(info, amt.X)
+			other = amt.Y
+		}
+		if isC && objOf(info, strip(info, other)) == iv && (amt.Op == token.MUL && k == 8 || amt.Op == token.SHL && k == 3 && other == amt.X) {
+			// the whole array is appended in index order
+			if n, _ := pat.Expr("append(_in, _buf[:]...)").Find(info, sum.Decl.Body, pat.Binds{"_buf": ie.X}); n != nil {
+				idxForm = true
+			}
+		}
+		return true
+	})
+	if idxForm {
+		c.Okf("R2.state", key, sum.Decl.Pos(), "Sum stores byte i of the CRC as crc >> 8*i and appends the 8 bytes in index order (little-endian)")
 		return
 	}
 	// for k := 0; k < 64; k += 8 { in = append(in, byte(s>>k)) }
@@ -345,4 +420,30 @@ func localCopyOf(info *types.Info, st *core.Fn, lhs ast.Expr, field *types.Var) 
 		return true
 	}
 	return false
+}
+
+// forHeader8 reads `for v := init; v < bound; v += step` with constant init, bound and step.
+func forHeader8(info *types.Info, l *ast.ForStmt) (v types.Object, init, bound int64, op token.Token, step int64, ok bool) {
+	as, ok1 := l.Init.(*ast.AssignStmt)
+	cond, ok2 := ast.Unparen(orIdent(l.Cond)).(*ast.BinaryExpr)
+	if !ok1 || !ok2 || len(as.Lhs) != 1 || len(as.Rhs) != 1 || l.Post == nil {
+		return nil, 0, 0, 0, 0, false
+	}
+	v = objOf(info, as.Lhs[0])
+	init, okI := core.IntConst(info, as.Rhs[0])
+	bound, okB := core.IntConst(info, cond.Y)
+	if v == nil || !okI || !okB || objOf(info, strip(info, cond.X)) != v {
+		return nil, 0, 0, 0, 0, false
+	}
+	switch p := l.Post.(type) {
+	case *ast.IncDecStmt:
+		if p.Tok == token.INC && objOf(info, p.X) == v {
+			step = 1
+		}
+	case *ast.AssignStmt:
+		if p.Tok == token.ADD_ASSIGN && len(p.Lhs) == 1 && objOf(info, p.Lhs[0]) == v {
+			step, _ = core.IntConst(info, p.Rhs[0])
+		}
+	}
+	return v, init, bound, cond.Op, step, step > 0
 }
